@@ -12,7 +12,7 @@ import numpy as np
 
 from ..simkit import gen, refmodel
 from ..simkit.backends import BackendFault, classes
-from ..simkit.core import call, judge, clear_library_caches
+from ..simkit.core import WallLimit, call, judge, clear_library_caches, time_limit
 from ..simkit.simalloc import SimAlloc
 from ..simkit.simrng import POLICIES, SimRNG
 
@@ -48,7 +48,7 @@ class World:
     PROBES_EXPECTED = ["regime-few", "regime-many", "regime-boundary", "asymmetric-state", "basis-state", "adversarial-single-outcome",
                        "cross-regime-same-outcome", "exact-expectation", "measured-expectation", "cache-cleared", "user-seeded-runner",
                        "peer-fault", "sampled-distribution", "exact-distribution", "operator-object-reused", "register-wider-than-8",
-                       "deficit-sampling-refused", "helper-results-edited"]
+                       "deficit-sampling-refused", "helper-results-edited", "parametric-state-vector"]
 
     def gen_plan(self, seed, tier):
         r = random.Random(seed)
@@ -101,7 +101,8 @@ class World:
                                          "bessel": r.random() < 0.3},
                  "client": r.randrange(cfg["clients"]), "rs": r.getrandbits(32)}
             if cfg["faults"] != "none" and r.random() < 0.15:
-                s["fault"] = r.choice([{"kind": "peer", "at": r.randrange(0, 3)}, {"kind": "alloc", "at": r.randrange(0, 40)}])
+                s["fault"] = r.choice([{"kind": "peer", "at": r.randrange(0, 3), "view": r.choice(["run", "wf", "exact", "dist", "exact"])},
+                                       {"kind": "alloc", "at": r.randrange(0, 40)}])
             steps.append(s)
         if r.random() < 0.3:
             steps.insert(r.randrange(len(steps)), {"op": "helpers", "args": {"n": r.choice([n_run, n_run, max(1, n_run - 1)])},
@@ -122,6 +123,27 @@ class World:
             steps.insert(r.randrange(len(steps) + 1), {
                 "op": "deficit", "args": {"bits": bits, "q": r.randrange(nd), "sim": r.randrange(4), "small": r.choice([1, 2, 2 ** nd]),
                                           "big": r.choice([2 ** nd + 1, 3 * 2 ** nd])},
+                "client": 0, "rs": r.getrandbits(32)})
+        if r.random() < 0.2:
+            # a PARAMETRIC circuit: an asymmetric X pattern, then one or two gates whose parameters are free symbols, on
+            # arbitrary ordered qubit tuples; its symbolic state vector, bound at a point, is one more view of the state
+            ns = r.choice([2, 3, 3, 4, 4])
+            while True:
+                bits = [r.randint(0, 1) for _ in range(ns)]
+                if ns == 1 or bits != bits[::-1]:
+                    break
+            c = gen.basis_circuit(bits)
+            names = ["theta", "phi"]
+            for _ in range(r.randint(1, 2)):
+                g = gen.rand_gate(r, max_arity=min(3, ns), wrappers=0.4, depth=1, powexp=False, symbolic=1.0, symbols=names, custom=0.1,
+                                  exclude=[g_ for g_, (_, npar) in gen.BUILTIN.items() if npar == 0] + ["U3", "RH", "MyFixed", "MyPerm3", "MyNonUnitary", "Delay"])
+                k_ = gen.gate_arity(g)
+                if k_ > ns:
+                    continue
+                c["ops"].append({"gate": g, "q": gen.rand_qubits(r, k_, ns)})
+            steps.insert(r.randrange(len(steps) + 1), {
+                "op": "symview", "args": {"c": c, "vals": {nm: r.uniform(0.3, 2.8) for nm in names}, "small": r.choice([1, 2, 2 ** ns]),
+                                          "big": 2 ** ns + r.choice([1, 9])},
                 "client": 0, "rs": r.getrandbits(32)})
         cfg["n"] = n_run
         return {"format": 1, "property": PID, "world": "runners", "seed": seed, "config": cfg, "steps": steps}
@@ -229,6 +251,88 @@ class World:
                                   f"(state with total probability 1 - {a['d']:.2e}, support indices {support})")
         ctx.log("deficit", "ok", n=n, samples=a["samples"])
 
+    def _do_symview(self, ctx, st, step, a):
+        """State vector of a parametric circuit (symbolic), bound at a point, against the model at that point and
+        against the other views of the same circuit bound beforehand."""
+        import sympy
+
+        ok, circ = call(gen.build_circuit, a["c"])
+        if not ok:
+            ctx.log("symview", "construct-failed")
+            return
+        n = circ.n_qubits
+        N = 2 ** n
+        vals = {sympy.Symbol(k): float(v) for k, v in a["vals"].items()}
+        sim = st["sims"][0]   # the bundled simulator (plug-in back-ends are not required to take symbols)
+        st["rng"].begin_step(step["rs"])
+
+        def num(e):
+            return complex(sympy.sympify(e).subs(vals).evalf())
+
+        # model: every gate's own matrix at the point
+        state = np.zeros(N, dtype=complex)
+        state[0] = 1.0
+        for o in circ.operations:
+            okm, u = call(lambda: np.array([[num(x) for x in row] for row in sympy.Matrix(o.gate.matrix).tolist()], dtype=complex))
+            if not okm:
+                ctx.log("symview", "own-matrix-unavailable")
+                return
+            state = refmodel.apply_matrix(state, u, list(o.qubit_indices), n)
+        p = np.abs(state) ** 2
+        if abs(float(p.sum()) - 1) > 1e-9:
+            ctx.log("symview", "non-unitary")
+            return
+        what = f"SymbolicSimulator on parametric {circ!r} at {a['vals']}"
+        try:
+            with time_limit(25):
+                ok, wf = call(sim.get_wavefunction, circ)
+        except WallLimit:
+            ctx.probe("symbolic-simulation-skipped-slow")
+            ctx.log("symview", "slow")
+            return
+        ctx.called("get_wavefunction[parametric]")
+        ctx.check(ok, "unexpected-reject", "get_wavefunction-parametric", lambda: f"{what}: {type(wf).__name__}: {wf}")
+        if not circ.free_symbols:
+            ctx.log("symview", "no-symbols")
+            return
+        ctx.probe("parametric-state-vector")
+        with judge(ctx):
+            amps = np.array([num(e) for e in np.asarray(wf.amplitudes, dtype=object).reshape(-1)], dtype=complex)
+            ctx.check(len(amps) == N, "refine", "probabilities-length", f"{what}: {len(amps)} amplitudes")
+            err = float(np.max(np.abs(np.abs(amps) ** 2 - p)))
+            ctx.check(err <= 1e-9, "refine", "state-vector-order:parametric",
+                      f"{what}: probabilities of the symbolic state vector at the point differ from the model by {err:.2e}: {np.abs(amps) ** 2} vs {p}")
+        # the library's own binding of the symbolic wavefunction is one more reader of the same vector
+        okb, bwf = call(wf.bind, vals)
+        if okb:
+            with judge(ctx):
+                pb = np.asarray(bwf.get_probabilities(), dtype=float).reshape(-1)
+                ctx.check(float(np.max(np.abs(pb - p))) <= 1e-9, "refine", "state-vector-order:parametric-bound",
+                          f"{what}: Wavefunction.bind(...) probabilities {pb} vs model {p}")
+        else:
+            ctx.probe("parametric-bind-refused")
+        # the other views of the same circuit, bound beforehand
+        okc, bc = call(circ.bind, vals)
+        if not okc:
+            ctx.probe("parametric-circuit-bind-refused")
+            ctx.log("symview", "ok-no-bound-views")
+            return
+        oke, ed = call(sim.get_measurement_outcome_distribution, bc, None)
+        ctx.check(oke, "unexpected-reject", "exact-distribution", lambda: f"{what} (bound): {type(ed).__name__}: {ed}")
+        with judge(ctx):
+            for k, v in ed.distribution_dict.items():
+                ctx.check(len(k) == n and abs(v - p[refmodel.index_of(k)]) <= 1e-9, "refine", "exact-distribution-order",
+                          f"{what}: exact distribution of the bound circuit gives {k} -> {v!r}, the parametric state vector at the point gives {p[refmodel.index_of(k)]!r}")
+        for ns in (a["small"], a["big"]):
+            okr, meas = call(sim.run_and_measure, bc, ns)
+            ctx.check(okr, "unexpected-reject", "run", lambda: f"{what} (bound): run_and_measure({ns}) raised {type(meas).__name__}: {meas}")
+            with judge(ctx):
+                for t in meas.bitstrings:
+                    ctx.check(len(t) == n and p[refmodel.index_of(t)] > 1e-12, "refine", "zero-probability-outcome",
+                              f"{what}: bound circuit sampled {tuple(t)} whose probability under the parametric state vector is {p[refmodel.index_of(t)]!r}")
+        ctx.nontrivial = True
+        ctx.log("symview", "ok", n=n, n_ops=len(circ.operations))
+
     def _do_helpers(self, ctx, st, step, a):
         """Another client of the same process uses the library's public bit-order helpers and treats what they
         return as its own (reverses, clears, extends the lists / dicts).  None of that is the runners' business."""
@@ -255,6 +359,8 @@ class World:
             return self._do_deficit(ctx, st, step, step["args"])
         if step["op"] == "helpers":
             return self._do_helpers(ctx, st, step, step["args"])
+        if step["op"] == "symview":
+            return self._do_symview(ctx, st, step, step["args"])
         a = step["args"]
         cfg = ctx.config
         si = a["sim"] % len(st["sims"])
@@ -294,8 +400,18 @@ class World:
         fault = step.get("fault")
         is_split = hasattr(sim, "native_calls")
         if fault and is_split and fault.get("kind") == "peer":
+            # the peer fails inside one of the calls; that call reports it, and every view taken afterwards (the request
+            # is simply repeated below) must be as right as if the failure had never happened
             sim.arm(fault["at"])
-            ok, res = call(sim.run_and_measure, circ, a["small"])
+            view = fault.get("view", "run")
+            if view == "wf":
+                ok, res = call(sim.get_wavefunction, circ)
+            elif view == "exact":
+                ok, res = call(sim.get_exact_expectation_values, circ, op_obj if op_obj is not None else gen.build_pauli(op_spec))
+            elif view == "dist":
+                ok, res = call(sim.get_measurement_outcome_distribution, circ, None)
+            else:
+                ok, res = call(sim.run_and_measure, circ, a["small"])
             sim.arm(None)
             if not ok and isinstance(res, BackendFault):
                 ctx.fault("peer-fault")
@@ -413,6 +529,11 @@ class World:
                 yield {**s, "args": {**a, "n": a["n"] - 1}}
             return
         if s["op"] == "helpers":
+            return
+        if s["op"] == "symview":
+            ops = a["c"]["ops"]
+            for i in range(len(ops)):
+                yield {**s, "args": {**a, "c": {**a["c"], "ops": ops[:i] + ops[i + 1:]}}}
             return
         ops = a["c"]["ops"]
         for i in range(len(ops)):
